@@ -863,7 +863,8 @@ def run(tier, seed):
     return rep.finish("proof", ob, trusted_base=core.TRUSTED_BASE_COMMON + [
         "Model/Partition.v is hand-written; tied to cube.py / cubepart.py / _slice_idx_expr / the stripe "
         "factory by this correspondence run; the count extractors it calls are Model/CubeCounts.v (C01/C02)",
-        "harness/gen.py as the environment model (survey -> Crunch response)"])
+        "harness/gen.py as the environment model (survey -> Crunch response)",
+        __import__("harness.props.cube_tb", fromlist=["cube_trusted_base"]).cube_trusted_base()])
 
 
 def replay(path):
